@@ -174,7 +174,8 @@ def _run_space(ctx, name: str, cases: List[Tuple[str, int, str]], all_failures: 
     """cases: (expression text, table index, structure key)"""
     t0 = time.time()
     items = [(e, t) for e, t, _ in cases]
-    chunks = [items[i:i + 100] for i in range(0, len(items), 100)]
+    n_chunks = max(1, min(len(items) // 10 + 1, 512))  # dealt round-robin: balanced cost per chunk
+    chunks = [c for c in (items[i::n_chunks] for i in range(n_chunks)) if c]
     results = pmap(_work, chunks)
     for r in results:
         all_failures.extend(r[1])
@@ -222,7 +223,7 @@ def run(ctx, tier: str, seed: int) -> None:
                f"each) x {len(TABLES)} package tables ({'; '.join(TABLE_NOTES)})", True)
 
     # ------------------------------------------------------------------ 2. 4 leaves (sampled) and larger
-    n4 = 1000 if quick else 40000
+    n4 = 1000 if quick else 25000
     pool4 = []
     trees4 = list(g.enum_trees(4))
     seen = set()
@@ -234,7 +235,7 @@ def run(ctx, tier: str, seed: int) -> None:
         seen.add((t_idx, kinds))
         pool4.append(_label(trees4[t_idx], kinds, t_idx))
     big = []
-    for n, count in ((5, 100), (6, 60), (8, 30)) if quick else ((5, 3000), (6, 2000), (8, 1000)):
+    for n, count in ((5, 100), (6, 60), (8, 30)) if quick else ((5, 2000), (6, 1200), (8, 500)):
         for _ in range(count):
             kinds = tuple(rng.choice(LEAF_KINDS) for _ in range(n))
             if all(k == "K" for k in kinds):
